@@ -22,7 +22,7 @@
 (* The result is compared, observation by observation, with the content     *)
 (* IceData!Merge defines.                                                   *)
 (***************************************************************************)
-EXTENDS IceData, Json
+EXTENDS Catalogue, Json
 
 CONSTANTS Catalogue,      \* sequence of batches
           MaxSegs,        \* segments per merge
@@ -151,40 +151,6 @@ RefinesStats    == \A f \in RangeOf(A.fields) :
 RefinesDocValues == \A k \in 0..(NewDocCount - 1) : \A f \in RangeOf(A.fields) :
                        MergedDocValues(k, f) = DocValuesOf(A, k, <<f>>)                               \* C07
 
------------------------------------------------------------------------------
-(* a catalogue of tiny batches: shared and disjoint terms, the empty term, differing field lists,
-   stored values, doc values, composite locations, repeated field instances *)
-
-T(b) == <<b>>
-Occ(t, fr, ls) == [term |-> t, freq |-> fr, locs |-> ls]
-L(f, p) == [field |-> f, pos |-> p, start |-> p, end |-> p + 1]
-Inst(n, ts, st, v, dv) ==
-    [name |-> n, len |-> SumSeq([k \in DOMAIN ts |-> ts[k].freq]), stored |-> st, value |-> v, dv |-> dv, terms |-> ts]
-Id(k) == Inst("_id", <<Occ(T(48 + k), 1, <<>>)>>, TRUE, T(48 + k), FALSE)
-
-McCatalogue == <<
-    \* 1: two documents, fields _id + a, a shared term with locations and a singleton
-    << <<Id(0), Inst("a", <<Occ(T(120), 2, <<L("", 1), L("_id", 2)>>), Occ(T(121), 1, <<>>)>>, TRUE, T(1), TRUE)>>,
-       <<Id(1), Inst("a", <<Occ(T(120), 1, <<>>)>>, FALSE, <<>>, TRUE)>> >>,
-    \* 2: same field list as 1 (copy path), the empty term, a repeated field instance
-    << <<Id(2), Inst("a", <<Occ(<<>>, 1, <<>>), Occ(T(120), 1, <<L("", 3)>>)>>, TRUE, T(2), TRUE),
-              Inst("a", <<Occ(T(120), 2, <<>>)>>, TRUE, T(3), TRUE)>> >>,
-    \* 3: a different field list (b sorts after a): forces the re-encode path
-    << <<Id(3), Inst("b", <<Occ(T(120), 1, <<>>)>>, TRUE, T(4), FALSE)>>,
-       <<Inst("b", <<Occ(T(122), 3, <<L("", 1)>>)>>, FALSE, <<>>, FALSE)>> >>,
-    \* 4: fields _id a b, a document without any field
-    << <<>>, <<Id(4), Inst("a", <<Occ(T(121), 1, <<>>)>>, TRUE, T(5), TRUE), Inst("b", <<Occ(T(120), 1, <<>>)>>, TRUE, T(6), FALSE)>> >>,
-    \* 5: the empty batch
-    << >>,
-    \* 6: field list _id a c : diverges from 4 after a common prefix
-    << <<Id(5), Inst("a", <<Occ(T(120), 1, <<>>)>>, TRUE, T(7), TRUE), Inst("c", <<Occ(T(120), 1, <<>>)>>, TRUE, T(8), FALSE)>> >>,
-    \* 7: a singleton term with frequency 2 and no locations (must not be 1-hit encoded)
-    << <<Id(6), Inst("a", <<Occ(T(125), 2, <<>>)>>, FALSE, <<>>, TRUE)>> >>
->>
-
-McFields == {"_id", "a", "b", "c"}
-McFieldBytes == ("_id" :> <<95, 105, 100>>) @@ ("a" :> <<97>>) @@ ("b" :> <<98>>) @@ ("c" :> <<99>>)
-McNormOf == [p \in McFields \X (0..24) |-> p]           \* the norm key itself: injective
 
 \* E2: the same configurations, emitted for execution on the real merger
 EmitConfig == PrintT(<<"BEHAVIOUR", ToJson([sel |-> sel, drops |-> [i \in DOMAIN sel |-> SetToSorted(drops[i], <)],
